@@ -23,7 +23,8 @@ PREFIX = "C40"
 CASE_TYPE = "C40_case"
 HARNESS = "c40"
 KNOWN = {1: "C40-explicit-id-ignored", 2: "C40-hashid-not-masked", 3: "C40-duplicate-member-ids",
-         4: "C40-enum-literals-not-published", 5: "C40-union-default-arm-order", 6: "C40-non-serialized-listed"}
+         4: "C40-enum-literals-not-published", 5: "C40-union-default-arm-order", 6: "C40-non-serialized-listed",
+         7: "C40-vec-i8-as-u8"}
 RULE = ("a case is one generated type declaration (struct / tuple struct / enum / union with the documented "
         "#[dust_dds(...)] attributes, nested up to three levels) together with the descriptor printed from the real "
         "<T as Type>::TYPE and 3-6 values sent through the real create_dynamic_sample and create_sample; all "
@@ -504,14 +505,25 @@ def gen_values(r, d, tier):
     t = ("named", d)
     vals = [dflt(t), rand_val(r, t, zero=True)]
     if d["kind"] == "enum":
-        vals = [("e", i) for i in range(len(d["variants"]))][:6]
+        return [(("e", i), 0, 0) for i in range(len(d["variants"]))][:6] + [(("e", 0), r.choice([1, 2]), 0)]
     elif d["kind"] == "union":
         for i, var in enumerate(d["variants"][:5]):
             vals.append(("u", i, None if var["ty"] is None else rand_val(r, var["ty"], False)))
     n = 4 if tier == "quick" else 6
     while len(vals) < n:
         vals.append(rand_val(r, t))
-    return vals
+    return with_damage(r, vals)
+
+
+def with_damage(r, vals):
+    """every value once as a plain round trip; some again with one stored member removed /
+    replaced by a foreign storage before create_sample (ties the missing-member, default_value
+    and try_construct branches of the model to the code)"""
+    out = [(v, 0, 0) for v in vals]
+    for v in vals[1:]:
+        if r.random() < 0.7:
+            out.append((v, r.choice([1, 1, 2]), r.randrange(8)))
+    return out
 
 
 # ---- the hand-written corpus: README examples and minimised regression declarations ----------------------
@@ -579,7 +591,7 @@ def corpus_values(d):
     r = random.Random("corpus-" + d["rname"])
     vals = [dflt(t)]
     if d["kind"] == "enum":
-        return [("e", i) for i in range(len(d["variants"]))]
+        return [(("e", i), 0, 0) for i in range(len(d["variants"]))] + [(("e", 0), 1, 0), (("e", 0), 2, 0)]
     if d["kind"] == "union":
         for i, var in enumerate(d["variants"]):
             vals.append(("u", i, None if var["ty"] is None else rand_val(r, var["ty"], False)))
@@ -588,7 +600,11 @@ def corpus_values(d):
     if d["rname"] == "Opts":
         vals.append(("r", [("o", None), ("o", ("p", 3)), ("p", 1), ("p", 0)]))      # bare None: documented panic
         vals.append(("r", [("o", ("p", 1)), ("o", None), ("p", 1), ("p", 1)]))      # None != Some(3): panic
-    return vals
+    out = [(v, 0, 0) for v in vals]
+    for v in vals[1:]:
+        for pos in range(3):
+            out.append((v, 1 + (pos + len(out)) % 2, pos))
+    return out
 
 
 # ---- Rust program ---------------------------------------------------------------------------------------------
@@ -713,20 +729,28 @@ fn ty_line<T: Type>(i: usize) {
     let (other, d) = desc(T::TYPE);
     println!("T {} | {} | {}", i, other, d);
 }
-fn rt<T: TypeSupport + Clone + PartialEq + Canon>(i: usize, k: usize, v: T) {
+// mu: 0 = plain round trip; 1 = remove the (pos mod n)-th stored member before create_sample;
+// 2 = replace it by a storage no type maps to
+fn rt<T: TypeSupport + Clone + PartialEq + Canon>(i: usize, k: usize, v: T, mu: u8, pos: u32) {
     let cin = v.canon();
     let v2 = v.clone();
     match catch_unwind(AssertUnwindSafe(move || v2.create_dynamic_sample())) {
-        Err(_) => println!("V {} {} | {} | (Panic 0) | (Panic 0) | - | false", i, k, cin),
+        Err(_) => println!("V {} {} | {} | None | (Panic 0) | (Panic 0) | - | false", i, k, cin),
         Ok(mut d) => {
             let du = dump(&d);
             let s = ser_ok(&d);
+            let mut m = "None".to_string();
+            if mu != 0 && d.get_item_count() > 0 {
+                let id = d.get_member_id_at_index(pos % d.get_item_count()).unwrap();
+                if mu == 1 { d.remove_value(id).unwrap(); } else { d.set_value(id, DataStorage::Float128(0)); }
+                m = format!("(Some ({}, {}))", mu == 1, id);
+            }
             let (back, eq) = match catch_unwind(AssertUnwindSafe(|| T::create_sample(&mut d))) {
                 Err(_) => ("(Panic 0)".to_string(), "-"),
                 Ok(None) => ("(Ok None)".to_string(), "-"),
                 Ok(Some(x)) => (format!("(Ok (Some {}))", x.canon()), if x == v { "E" } else { "N" }),
             };
-            println!("V {} {} | {} | (Ok {}) | {} | {} | {}", i, k, cin, du, back, eq, s);
+            println!("V {} {} | {} | {} | (Ok {}) | {} | {} | {}", i, k, cin, m, du, back, eq, s);
         }
     }
 }
@@ -849,8 +873,8 @@ def rust_program(decls, values):
     o.append("fn main() {\n    std::panic::set_hook(Box::new(|_| {}));\n")
     for i, (d, vals) in enumerate(zip(decls, values)):
         o.append("    ty_line::<%s>(%d);\n" % (d["rname"], i))
-        for k, v in enumerate(vals):
-            o.append("    rt::<%s>(%d, %d, %s);\n" % (d["rname"], i, k, rust_val(("named", d), v)))
+        for k, (v, mu, pos) in enumerate(vals):
+            o.append("    rt::<%s>(%d, %d, %s, %d, %d);\n" % (d["rname"], i, k, rust_val(("named", d), v), mu, pos))
     o.append("}\n")
     return "".join(o)
 
@@ -911,15 +935,15 @@ def parse_output(text, decls, values):
             res[int(h[1])][0] = p[2]
             res[int(h[1])][1] = p[1] == "true"
         elif h[0] == "V":
-            res[int(h[1])][2][int(h[2])] = (p[1], p[2], p[3], p[4], p[5] == "true")
+            res[int(h[1])][2][int(h[2])] = (p[1], p[3], p[4], p[5], p[6] == "true", p[2])
     return res
 
 
 def case_term_of(d, vals, r):
     rts = []
     t = ("named", d)
-    for v, o in zip(vals, r[2]):
-        rts.append("mkRT %s %s %s %s" % (coq_val(t, v), o[1], o[2], cb(o[4])))
+    for (v, mu, pos), o in zip(vals, r[2]):
+        rts.append("mkRT %s %s %s %s %s" % (coq_val(t, v), o[5], o[1], o[2], cb(o[4])))
     return "mkC40 %s %s [%s]" % (coq_decl(d), r[0], "; ".join(rts))
 
 
@@ -933,7 +957,9 @@ def n_items(d):
 
 def run(ctx):
     mod = sys.modules[__name__]
+    t_p = time.time()
     core.prove(ctx, mod)
+    ctx.cov["prove_s"] = round(time.time() - t_p, 1)
     r = ctx.rng
     per, nprog = {"quick": (100, 1), "thorough": (120, 8)}[ctx.tier]
     programs, all_decls, all_vals = [], [], []
@@ -965,16 +991,18 @@ def run(ctx):
                 ctx.broken.append("descriptor of %s has a non-default value in a field the model does not carry "
                                   "(base_type/element_type/bound/default_value/is_shared/is_external)" % d["rname"])
             t = ("named", d)
-            for v, o in zip(vs, rr[2]):
+            for (v, mu, pos), o in zip(vs, rr[2]):
                 if o[0] != coq_val(t, v):
                     ctx.broken.append("generator self-check: value literal and Coq term differ for %s: %s vs %s"
                                       % (d["rname"], o[0], coq_val(t, v)))
-                if o[3] == "E" and o[2] != "(Ok (Some %s))" % o[0] or o[3] == "N" and o[2] == "(Ok (Some %s))" % o[0]:
+                if (o[3] == "E") != (o[2] == "(Ok (Some %s))" % o[0]) and o[3] in "EN":
                     ctx.broken.append("generator self-check: Rust == and canonical equality disagree for %s" % d["rname"])
             cases.append((d, vs, rr))
             terms.append(case_term_of(d, vs, rr))
             texts.append(decl_text(d))
+    t_e = time.time()
     model_bad, oracle_bad, err = core.coq_eval_cases(ctx, CORR, PREFIX, CASE_TYPE, terms)
+    ctx.cov["coq_eval_s"] = round(time.time() - t_e, 1)
     if err:
         ctx.broken.append("correspondence evaluation failed: " + err[-600:])
     known = core.known_ids(PID)
@@ -989,7 +1017,7 @@ def run(ctx):
         d, vs, rr = cases[j]
         ctx.violations.append(("oracle", "property oracle rejects the behaviour of the derive on: %s  -> descriptor %s ; "
                                "round trips %s" % (texts[j], rr[0], [(o[0], o[2]) for o in rr[2]]),
-                               {"case": json.dumps(strip(d)), "values": [coq_val(("named", d), v) for v in vs],
+                               {"case": json.dumps(strip(d)), "values": [coq_val(("named", d), v[0]) for v in vs],
                                 "impl_output": rr, "harness": HARNESS}))
     if model_bad and not unknown:
         j = model_bad[0]
@@ -1004,7 +1032,8 @@ def run(ctx):
     ctx.cov["rule"] = RULE
     ctx.cov["traces_validated_against_impl"] = len(cases) - len(model_bad)
     ctx.cov["model_disagreements"] = len(model_bad)
-    ctx.cov["round_trips"] = sum(len(vs) for _, vs, _ in cases)
+    ctx.cov["round_trips"] = sum(len([1 for v in vs if v[1] == 0]) for _, vs, _ in cases)
+    ctx.cov["damaged_round_trips"] = sum(len([1 for v in vs if v[1] != 0]) for _, vs, _ in cases)
     ctx.cov["samples"] = [{"case": texts[i], "impl": cases[i][2][0]} for i in sorted(set([0, len(cases) // 2, len(cases) - 1]))] if cases else []
     ctx.cov["input_distribution"] = distribution(cases)
     return core.finish(ctx, mod)
@@ -1061,7 +1090,7 @@ def distribution(cases):
                 if v["default"]:
                     bump("variant/default")
         for o in rr[2]:
-            bump("roundtrip/" + ("panic" if o[1].startswith("(Panic") else "none" if o[2] == "(Ok None)" else
+            bump(("roundtrip/" if o[5] == "None" else "damaged/") + ("panic" if o[1].startswith("(Panic") else "none" if o[2] == "(Ok None)" else
                                  "panic-back" if o[2].startswith("(Panic") else "equal" if o[3] == "E" else "different"))
     return dist
 
